@@ -97,6 +97,12 @@ def _jobs(tier):
             for al in ("tracked-sf", "tracked-es"):
                 add("dbg", s, al, "2x2", INF)
                 add("dbg", s, al, "2x1", INF)
+        # fallback_allocator<stateless default, stateful fallback> (and the reverse): statefulness from ONE part
+        for s in storages:
+            add("dbg", s, "fallback-sf", "2x2", INF)
+            add("dbg", s, "fallback-sf", "2x1", INF)
+        add("dbg", "direct", "fallback-fs", "2x2", INF)
+        add("dbg", "direct", "fallback-fs", "2x1", INF)
         # second Mutex type: an empty class locking a process-wide mutex
         add("dbg", "direct", "stateful", "3x1", INF, parts=2, mutex="empty")
         for s in storages:
@@ -136,6 +142,12 @@ def _jobs(tier):
             add("dbg", s, "stateful", "2x2", INF, mutex="empty")
             add("dbg", s, "stateful", "2x1", INF, mutex="empty")
         add("dbg", "direct", "tracked-sf", "3x2", 3, parts=4)
+        for s in storages:
+            for al in ("fallback-sf", "fallback-fs"):
+                add("dbg", s, al, "3x1", INF, parts=3)
+                add("dbg", s, al, "2x3", INF)
+                add("dbg", s, al, "2x2", INF)
+                add("dbg", s, al, "2x1", INF)
         add("dbg", "direct", "stateful", "3x2", 3, parts=4, mutex="empty")
     jobs.append(J(H, "dbg", "--selftest", name="selftest[dbg]"))
     # stateless low-level allocators: shared leak balance under all schedules (needs a configuration with leak checking)
@@ -315,7 +327,8 @@ def check(prop, tier, only):
                        "state == number of calls (split read-modify-write: a missing lock is a lost update), all returned "
                        "addresses distinct, mutex free at the end with #lock == #unlock and no unlock by a non-owner, no deadlock; "
                        "stateless allocator: no mutex object and no lock call at all (direct and reference storage). alloc 'tracked-sf' / "
-                       "'tracked-es' = tracked_allocator<tracker with state, stateless allocator> / <empty tracker, stateful allocator>: "
+                       "'tracked-es' = tracked_allocator<tracker with state, stateless allocator> / <empty tracker, stateful allocator>, "
+                       "'fallback-sf' / 'fallback-fs' = fallback_allocator<stateless default, stateful fallback> / the reverse: "
                        "tracker callbacks AND inner allocator members are owner-checked, the part with state does the split "
                        "read-modify-write. '+empty-mutex-type' = Mutex is an empty class locking a process-wide mutex. alloc 'empty' = an "
                        "empty class declaring is_stateful = true_type (state global): judged exactly like 'stateful'. shape 'll' = "
